@@ -11,13 +11,14 @@ import (
 func init() { registry["C12"] = checkC12 }
 
 func checkC12(c *Ctx, r *Report) {
-	r.Explain = "Decides structural necessary conditions of authentication: (R1) every exit of the password and session authenticators that yields a user is dominated by the credential check (password verified / session epoch equals the user's current epoch), a user-exists check and a disabled-account check; (R2) a one-time session yields a user only on the success edge of its deletion, every failure of that deletion (not-found included) is an error, and the cookie TTL refresh is skipped for one-time sessions; (R3) every store to the password hash is paired with a session-epoch bump on every path, and the bcrypt-cost rehash inside the CAS callback is decided on the callback's own freshly loaded hash; (R4) the verified-password cache is filled only on the success edge of the full bcrypt comparison, under a key that depends on both hash and password, by a single writer; (R5) the request handler's user is set only from an authenticator result (or the table-listed re-fetches), after being reset first; (R6) only CreateSession writes a session document unconditionally — a refresh of an existing session cannot re-create one that was deleted in the meantime. Not decided: histories (delete and re-create), bcrypt itself, OIDC/JWT validation."
+	r.Explain = "Decides structural necessary conditions of authentication: (R1) every exit of the password and session authenticators that yields a user is dominated by the credential check (password verified / session epoch equals the user's current epoch), a user-exists check and a disabled-account check; (R2) a one-time session yields a user only on the success edge of its deletion, every failure of that deletion (not-found included) is an error, and the cookie TTL refresh is skipped for one-time sessions; (R3) every store to the password hash is paired with a session-epoch bump on every path, and the bcrypt-cost rehash inside the CAS callback is decided on the callback's own freshly loaded hash; (R4) the verified-password cache is filled only on the success edge of the full bcrypt comparison, under a key that depends on both hash and password, by a single writer; (R5) the request handler's user is set only from an authenticator result (or the table-listed re-fetches), after being reset first; (R6) only CreateSession writes a session document unconditionally — a refresh of an existing session cannot re-create one that was deleted in the meantime.; (R7) expiry of sessions is enforced only by the bucket, so every write of a session document carries an expiry computed from the session's time-to-live (never a constant) and CreateSession refuses a non-positive time-to-live. Not decided: histories (delete and re-create), bcrypt itself, OIDC/JWT validation, that the bucket honours the expiry."
 	c12R1(c, r)
 	c12R2(c, r)
 	c12R3(c, r)
 	c12R4(c, r)
 	c12R5(c, r)
 	c12R6(c, r)
+	c12R7(c, r)
 }
 
 // userYieldingReturns: returns whose result idx is not the nil constant.
